@@ -70,10 +70,20 @@ def _chunk_detail(cfg, name, tier):
     return json.loads(r.stdout)
 
 
+def _variants(results):
+    """Expand (cfg, result) into (cfg, variant, chunk map): the native code of the configuration ("") and the shadow
+    builds linked into the same binary (armv8, fs32, neon)."""
+    out = []
+    for cfg, r in results:
+        for var, m in sorted(r.get("extra", {}).get("chunks", {}).items()):
+            out.append((cfg, var, m))
+    return out
+
+
 def _compare_maps(pid, tier, a, b, what):
-    """a, b: (cfg, result). Returns violations for chunks whose hashes differ."""
-    (ca, ra), (cb, rb) = a, b
-    ma, mb = ra.get("extra", {}).get("chunks", {}), rb.get("extra", {}).get("chunks", {})
+    """a, b: (cfg, variant, chunk map). Returns violations for chunks whose hashes differ."""
+    (ca, va, ma), (cb, vb, mb) = a, b
+    la, lb = ca.label + ("@" + va if va else ""), cb.label + ("@" + vb if vb else "")
     common = sorted(set(ma) & set(mb))
     out = []
     for name in common:
@@ -81,7 +91,7 @@ def _compare_maps(pid, tier, a, b, what):
             continue
         if len(out) >= 6:
             break
-        da, db = _chunk_detail(ca, name, tier), _chunk_detail(cb, name, tier)
+        da, db = _chunk_detail(ca, va + "|" + name, tier), _chunk_detail(cb, vb + "|" + name, tier)
         first = None
         if da is not None and db is not None:
             for x, y in zip(da, db):
@@ -89,14 +99,14 @@ def _compare_maps(pid, tier, a, b, what):
                     first = (x, y)
                     break
         if first is None:
-            case = {"kind": "cross", "chunk": name, "config_a": ca.label, "config_b": cb.label}
-            exp, obs = f"chunk hash {ma[name]} in {ca.label}", f"chunk hash {mb[name]} in {cb.label} (detail runs agree: non-deterministic?)"
+            case = {"kind": "cross", "chunk": name, "config_a": ca.label, "variant_a": va, "config_b": cb.label, "variant_b": vb}
+            exp, obs = f"chunk hash {ma[name]} in {la}", f"chunk hash {mb[name]} in {lb} (detail runs agree: non-deterministic?)"
         else:
             x, y = first
-            case = {"kind": "cross", "chunk": name, "config_a": ca.label, "config_b": cb.label, "case": x["case"]}
-            exp, obs = f"{ca.label}: {x['obs']}", f"{cb.label}: {y['obs']}"
+            case = {"kind": "cross", "chunk": name, "config_a": ca.label, "variant_a": va, "config_b": cb.label, "variant_b": vb, "case": x["case"]}
+            exp, obs = f"{la}: {x['obs']}", f"{lb}: {y['obs']}"
         subj = name.split("/")[0] if not name.startswith("special/") else name.split("/")[1]
-        out.append(dict(property=pid, subject=subj, what=what, config=cb.label, case=case, expected=exp, observed=obs,
+        out.append(dict(property=pid, subject=subj, what=what, config=lb, case=case, expected=exp, observed=obs,
                         note="same key and data give different results in two builds"))
     return out, len(common)
 
@@ -104,14 +114,16 @@ def _compare_maps(pid, tier, a, b, what):
 def post_c03(pid, tier, cfgs, results):
     """Every configuration is compared with the first one (equality is transitive), chunk by chunk."""
     viol, compared = [], 0
-    if not results:
+    ents = _variants(results)
+    if not ents:
         return viol
-    base = results[0]
-    for other in results[1:]:
+    base = ents[0]
+    for other in ents[1:]:
         v, n = _compare_maps(pid, tier, base, other, "config-dependent-output")
         viol += v
         compared += n
-    POST_INFO["pairs_compared"] = len(results) - 1
+    POST_INFO["pairs_compared"] = len(ents) - 1
+    POST_INFO["builds_compared"] = [c.label + ("@" + v if v else "") for c, v, _ in ents]
     POST_INFO["chunks_compared"] = compared
     return viol
 
@@ -119,8 +131,8 @@ def post_c03(pid, tier, cfgs, results):
 def post_c20(pid, tier, cfgs, results):
     viol, compared, pairs = [], 0, 0
     by = {}
-    for cfg, r in results:
-        by.setdefault((cfg.name, cfg.feat, cfg.lite), {})[cfg.profile] = (cfg, r)
+    for cfg, var, m in _variants(results):
+        by.setdefault((cfg.name, cfg.feat, cfg.lite, var), {})[cfg.profile] = (cfg, var, m)
     for k, d in by.items():
         if "vdev" in d and "vrel" in d:
             v, n = _compare_maps(pid, tier, d["vdev"], d["vrel"], "profile-dependent-output")
